@@ -3,8 +3,8 @@
    absent keys into the zero value) - equal to, adjacent to and far from the element, the
    boundaries of its kind, values outside its range, other accepted spellings (hex, octal,
    binary, underscores, signs, exponent forms), unparsable texts and "nil" - under the six
-   operators and OpUnk / OpInc.  The quick tier rotates operators over the operands, the
-   thorough tier takes the full product on leaves. *)
+   operators and OpUnk / OpInc.  Operators rotate over the operands; the thorough tier runs all
+   supported units (every scalar kind) with the same selection. *)
 From Coq Require Import List Bool String Ascii ZArith Arith Floats.SpecFloat.
 From Verif Require Import Util Ints Strconv Floats Node GoSrc Value Outcome Nav Cmp CmpSpec Shapes EnumVal GenUnits.
 Import ListNotations.
@@ -130,27 +130,24 @@ Definition operands_for (n : node) (v : val) (path : list string) : list otag * 
 Definition hex_or_dash (s : string) : string :=
   match s with EmptyString => "-" | _ => hex_of_bytes (bytes_of_string s) end.
 
-(* (operand, operator) pairs of one (value, path): quick = one rotating operator per operand (every
-   other operand for long lists) + all six on the first; thorough = the full product on leaves *)
+(* (operand, operator) pairs of one (value, path): one rotating operator per operand (every other
+   operand of long lists, the choice rotating with the path) + all six operators on the first
+   operand of every fifth (thorough: third) leaf path *)
 Definition rot {A} (k : nat) (l : list A) (d : A) : A := nth (Nat.modulo k (List.length l)) l d.
 
 Definition pairs (tier : Z) (sel : nat) (leaf silent : bool) (ops : list otag) : list (otag * cop) :=
-  if Z.eqb tier 0 then
-    let idx := combine (seqn (List.length ops)) ops in
-    let long := Nat.ltb 8 (List.length ops) in
-    let keep := filter (fun io : nat * otag =>
-                          negb long || negb leaf || Nat.eqb (Nat.modulo (fst io + sel) 2) 0
-                          || String.eqb (snd (snd io)) "r:nil" || String.eqb (snd (snd io)) "r:equal") idx in
-    let keep := if leaf then keep else
-                  if silent then filter (fun io : nat * otag => Nat.eqb (Nat.modulo (fst io + sel) 6) 0) keep else
-                  filter (fun io : nat * otag => Nat.ltb (Nat.modulo (fst io + sel) 3) 1 || Nat.eqb (fst io) 0) keep in
-    (map (fun io : nat * otag => (snd io, rot (Nat.div (fst io + sel) 2 + sel + Nat.div (fst io) 7) all_ops OEq)) keep ++
-    (if leaf && Nat.eqb (Nat.modulo sel 5) 0
-     then match ops with o :: _ => map (fun c => (o, c)) [OEq; ONq; OGt; OGtq; OLt; OLtq] | [] => [] end
-     else []))%list
-  else
-    if leaf then flat_map (fun o => map (fun c => (o, c)) all_ops) ops
-    else flat_map (fun o => map (fun c => (o, c)) [OEq; ONq; OGt; OUnk]) ops.
+  let idx := combine (seqn (List.length ops)) ops in
+  let long := Nat.ltb 8 (List.length ops) in
+  let keep := filter (fun io : nat * otag =>
+                        negb long || negb leaf || Nat.eqb (Nat.modulo (fst io + sel) 2) 0
+                        || String.eqb (snd (snd io)) "r:nil" || String.eqb (snd (snd io)) "r:equal") idx in
+  let keep := if leaf then keep else
+                if silent then filter (fun io : nat * otag => Nat.eqb (Nat.modulo (fst io + sel) 6) 0) keep else
+                filter (fun io : nat * otag => Nat.ltb (Nat.modulo (fst io + sel) 3) 1 || Nat.eqb (fst io) 0) keep in
+  (map (fun io : nat * otag => (snd io, rot (Nat.div (fst io + sel) 2 + sel + Nat.div (fst io) 7) all_ops OEq)) keep ++
+  (if leaf && Nat.eqb (Nat.modulo sel (if Z.eqb tier 0 then 5 else 3)) 0
+   then match ops with o :: _ => map (fun c => (o, c)) [OEq; ONq; OGt; OGtq; OLt; OLtq] | [] => [] end
+   else []))%list.
 
 Definition dedup_pairs (l : list (otag * cop)) : list (otag * cop) :=
   fold_left (fun acc x =>
@@ -165,7 +162,7 @@ Definition case_lines (tier : Z) (u : string * ty) : list string :=
       let '(j, (path, ptag)) := jp in
       let '(ops, cls) := operands_for n v path in
       let leaf := (String.eqb cls "el:leaf" || String.eqb cls "el:ptrleaf" || (String.eqb cls "el:nilptr" && Nat.eqb (Nat.modulo (vi + j) 3) 0))
-                  && (negb (String.eqb ptag "absent") || Nat.eqb (Nat.modulo (vi + j) 4) 0 || negb (Z.eqb tier 0)) in
+                  && (negb (String.eqb ptag "absent") || Nat.eqb (Nat.modulo (vi + j) 4) 0) in
       map (fun oc : otag * cop =>
         let '((rgt, rtag), op) := oc in
         let o1 := compare n (APtr (Some v)) op rgt path false in
